@@ -9,6 +9,19 @@ TB = ("Coq 8.16.1 kernel; hand-written Gallina model tied to /repo by the corres
       "OCaml runner/main.ml; Python harness. See DESIGN.md section 7.")
 
 CLAIMED = {
+ "C15": dict(
+   text="22 theorems about a Gallina model of grad / jacobian (product rule over layers exactly as tensor.Diagram.grad "
+        "recurses, per-box rules for rotations pure and parameter-shift, controlled rotations, scalars, tensor boxes as "
+        "bubbles, bubbles, zx spiders): formal differentiation of phase polynomials is correct (against dual numbers); in "
+        "a differential *-ring the pure rule and the parameter-shift rule of every rotation entry and the controlled "
+        "rotation rules are the derivatives; grad of a composite evaluates to the derivative in every additive monoidal "
+        "semantics whose box denotations satisfy the box rules (induction over layers); constants give the empty sum; "
+        "the jacobian stacks gradients in order.  Partial: no concrete matrix/CQ-map model over smooth functions is "
+        "built, so the concrete headline statement is a Definition and is covered by the sympy derivative oracle; "
+        "F12 (pure scalars under mixed gradients) is a known finding with a _refuted witness.  Tie to /repo: exact "
+        "syntactic comparison of the returned formal sums; sympy derivative of eval() at rational points.",
+   design="6/C15", engine="coq-grad",
+   technique="Coq proof (differential ring, product rule; concrete semantics partial) + exact syntactic correspondence + sympy derivative oracle"),
  "C09": dict(
    text="16 theorems about a Gallina model of tensor.Functor.__call__ (object map with winding handling, box / dagger / "
         "Cup / Cap branches, and the single-pass loop: one moveaxis per Swap, tensordot + moveaxis per box) on top of the "
@@ -213,6 +226,7 @@ man = {
    ("coq-tfun", "coq/TFun", "Gallina model of tensor.Functor.__call__ on the numpy/Tensor model + Coq theorems + extracted runner"),
    ("coq-quantum", "coq/Quantum", "abstract *-ring, exact ring Cyc32, bit-indexed matrices, gate tables and pure circuit evaluation + Coq theorems + extracted runner"),
    ("coq-param", "coq/Param", "Gallina model of parametrised boxes (polynomial phases), subs / lambdify / free_symbols + Coq theorems + extracted runner"),
+   ("coq-grad", "coq/Grad", "Gallina model of diagrammatic gradients on the Param model + Coq theorems + extracted runner"),
    ("coq-tensor", "coq/Tensor", "Gallina model of numpy primitives and discopy.tensor.Tensor over Gaussian integers + Coq theorems + extracted runner"),
  ]],
  "checks": checks,
